@@ -15,7 +15,8 @@
       partial erasure).  This is the guard that excludes the known finding C07-swa-middle-remove-* (a context shift
       that keeps a prefix reaches back into evicted cells); without it the statement is false
       ([C07_model_sees_effective_input_refuted]).  Without a window both conditions are vacuous ([no_window_ok]).
-    Cache capacity is not part of the model (known finding C07-swa-capacity is about capacity).
+    Cache capacity: [cacheCells cfg] (negative = unbounded); a batch that does not fit ends the history with [RCacheFull]
+    (state unchanged), see [C07_no_cache_full_refuted].
 
     Atomicity (a hypothesis built into the transition system): [Submit] is ONE transition - the first free entry of
     s.seqs is chosen, LoadCacheSlot selects the slot, marks it InUse and trims the cache, and the sequence is inserted,
@@ -27,7 +28,7 @@
     only.  The concurrent stage of the check (the real completion handler called from several goroutines against
     the real run loop, props/c07.py conc_stage) is what ties this hypothesis to the code. *)
 From Coq Require Import List ZArith Bool Arith Lia.
-From V Require Import Slots.Model Slots.ProofsKv Slots.ProofsWin Slots.WSlots Slots.WBatch Slots.WRef Slots.WNoFail Slots.WTerm Slots.Llama Slots.LlamaProofs.
+From V Require Import Slots.Model Slots.ProofsKv Slots.ProofsWin Slots.WSlots Slots.WBatch Slots.WRef Slots.WNoFail Slots.WTerm Slots.WCap Slots.Llama Slots.LlamaProofs.
 Import ListNotations.
 Open Scope Z_scope.
 
@@ -134,7 +135,7 @@ Definition C07_model_sees_effective_input_full : Prop :=
     forall r W0 keep np stops, In (EvSubmit r W0 keep np stops) (log st) ->
       forall j t vis, nth_error (samples_of r (log st)) j = Some (t, vis) ->
         vis = ref_vis cfg (ref_win F cfg keep W0 j) /\ t = F vis.
-Definition mid_cfg : config := mkCfg 6 8 false true true true (-1) (Some 3).
+Definition mid_cfg : config := mkCfg 6 8 false true true true (-1) (Some 3) (-1).
 Definition mid_ops : list op := Submit [1;2;3] 8 2 [] :: repeat Step 8.
 Theorem C07_model_sees_effective_input_refuted : ~ C07_model_sees_effective_input_full.
 Proof.
@@ -206,7 +207,7 @@ Print Assumptions C07_same_length_as_fresh.
 (** non-vacuity: the history that exposes the pinned defect (fork a prefix into the second slot, overflow the fork so
     that the shift fails on shared cells and the inputs are reprocessed), with the harness's network: request 1 is
     accepted, six tokens are sampled for it, and alone on a fresh one-slot server it is given the same six. *)
-Definition ex_cfg : config := mkCfg 8 8 true true true true (-1) None.
+Definition ex_cfg : config := mkCfg 8 8 true true true true (-1) None (-1).
 Definition ex_ops : list op :=
   [Submit [1;2;3;4;5;0] 1 0 []; Step; Step; Submit [1;2;3;4;5;1] 6 0 []] ++ repeat Step 9.
 Definition ex_fresh : list op := Submit [1;2;3;4;5;1] 6 0 [] :: repeat Step 9.
@@ -237,7 +238,7 @@ Proof. vm_compute. reflexivity. Qed.
     tokens generated, the same prompt again.  The slot records 8 inputs, the cache still holds positions 2..7;
     resuming at 7 (= len(prompt)) would be possible, but one input must be left to sample, so the slot is resumed at
     6, whose window needs position 1: the model (as the code) asks about 6, gets "no" and reloads from scratch. *)
-Definition swa_cfg : config := mkCfg 11 2 false true true true (-1) (Some 5).
+Definition swa_cfg : config := mkCfg 11 2 false true true true (-1) (Some 5) (-1).
 Definition swa_ops : list op := Submit [2;0;0;1;0;1;0] 2 0 [] :: repeat Step 6.
 Example C07_example_swa_resume_position :
   let st := run (hash_vis 3) swa_cfg (init 2) swa_ops in
@@ -269,8 +270,7 @@ Qed.
     entry is free (no "no available cache slots", no nil dereference in findBestCacheSlot), ShiftCacheSlot's
     "keep exceeds context" is unreachable, and the stop handling never slices with a negative bound (this last part
     is what fixes/C07-stop-trim-negative.patch repairs; a panic in processBatch kills every in-flight request).
-    (Cache capacity is not modelled: "could not find a kv cache slot" on a window cache is known finding
-    C07-swa-capacity.) *)
+    ([RCacheFull] is a separate outcome: see [C07_no_cache_full_refuted].) *)
 Theorem C07_no_runner_failure :
   forall (F : list (Z * tok) -> tok) cfg parallel ops o,
     1 <= numCtx cfg -> win_ok cfg -> Forall (op_guard cfg) ops ->
@@ -280,6 +280,47 @@ Theorem C07_no_runner_failure :
     end.
 Proof. intros F cfg parallel ops o Hc Hw Hg. apply step_op_no_failure; auto. apply reachable_inv; auto. Qed.
 Print Assumptions C07_no_runner_failure.
+
+(** Capacity.  [cacheCells cfg] is what Causal.Init allocated; a batch whose entries do not fit next to the cells still
+    referenced by some sequence makes Forward fail with ErrKvCacheFull ([RCacheFull]; processBatch returns the error
+    and the run loop panics).  "It never happens" is false for the allocation of a sliding-window cache
+    (maxSequences*window + maxBatch): eviction only touches the sequences of the current batch, so every slot can hold
+    window + its last batch.  Witness = known finding C07-swa-capacity: 3 slots, context 6, batch 1, window 3,
+    10 cells; four requests, and the 16th operation finds the cache full with every slot record still matching it. *)
+Definition C07_no_cache_full_full : Prop :=
+  forall (F : list (Z * tok) -> tok) cfg parallel ops o,
+    1 <= numCtx cfg -> win_ok cfg -> Forall (op_guard cfg) ops ->
+    snd (step_op F cfg (run F cfg (init parallel) ops) o) <> RCacheFull.
+Definition cap_cfg : config := mkCfg 6 1 true false true true (-1) (Some 3) 10.
+Definition cap_ops : list op :=
+  [Submit [4] 3 0 []; Step; Step; Step; Step; Submit [4;2] 3 0 []; Step; Step; Submit [4;2;4;2] 6 0 []; Step; Step;
+   Submit [4;2;4;2] 3 0 []; Step; Step; Step].
+Theorem C07_no_cache_full_refuted : ~ C07_no_cache_full_full.
+Proof.
+  intro H.
+  assert (Hw : win_ok cap_cfg) by (intros w E; injection E as <-; lia).
+  assert (Hc : 1 <= numCtx cap_cfg) by (cbn; lia).
+  assert (Hg : Forall (op_guard cap_cfg) cap_ops).
+  { apply Forall_forall. intros o Ho. destruct o as [p np k st|]; cbn; [|exact I].
+    repeat (destruct Ho as [Ho|Ho]; [try discriminate; injection Ho as _ _ <- _; right; left; reflexivity|]). destruct Ho. }
+  apply (H (hash_vis 6) cap_cfg 3%nat cap_ops Step Hc Hw Hg). vm_compute. reflexivity.
+Qed.
+Print Assumptions C07_no_cache_full_refuted.
+
+(** With an allocation of at least slots x context cells (what Causal.Init gives a cache without window, and what the
+    window cache lacks) it never happens: every cell belongs to slot sequences only and no sequence holds more
+    cells than the context ([WCap.v]). *)
+Theorem C07_no_cache_full_partial :
+  forall (F : list (Z * tok) -> tok) cfg parallel ops o,
+    1 <= numCtx cfg -> win_ok cfg -> Forall (op_guard cfg) ops ->
+    (cacheCells cfg < 0 \/ Z.of_nat parallel * numCtx cfg <= cacheCells cfg) ->
+    snd (step_op F cfg (run F cfg (init parallel) ops) o) <> RCacheFull.
+Proof. exact step_not_full. Qed.
+Print Assumptions C07_no_cache_full_partial.
+
+(** the capacity hypothesis holds for the cache of the first example (2 slots x context 8 = 16 cells) *)
+Example C07_capacity_satisfiable : Z.of_nat 2 * numCtx (mkCfg 8 8 true true true true (-1) None 16) <= cacheCells (mkCfg 8 8 true true true true (-1) None 16).
+Proof. vm_compute. discriminate. Qed.
 
 (** a full context always frees at least one entry, and never more than what is not kept *)
 Theorem C07_shift_discard_bounds :
@@ -308,7 +349,7 @@ Definition C07_llama_slot_matches_cache_full : Prop :=
     shared cell at position 4 to position 0: slot 0 still records [1..6] but its sequence now has two cells at
     position 0 and none at 4.  (ollamarunner's Go cache refuses such a shift and the inputs are reprocessed.)
     Found by reading + this model; llama.cpp cannot be run here (no model file), so it is not confirmed by execution. *)
-Definition ll_cfg : config := mkCfg 8 8 true true true true (-1) None.
+Definition ll_cfg : config := mkCfg 8 8 true true true true (-1) None (-1).
 Definition ll_ops : list lop :=
   [LLoad [1;2;3;4;5;6] true; LDecode 0 [1;2;3;4;5;6]; LRelease 0; LLoad [1;2;3;4;5;9] true; LDecode 1 [9;7;8]; LShift 1 0].
 Theorem C07_llama_slot_matches_cache_refuted : ~ C07_llama_slot_matches_cache_full.
@@ -337,7 +378,7 @@ Print Assumptions C07_llama_slot_matches_cache_partial.
 
 (** non-vacuity: a single-user history with a successful shift *)
 Example C07_llama_example :
-  let cfg := mkCfg 4 8 false true true true (-1) None in
+  let cfg := mkCfg 4 8 false true true true (-1) None (-1) in
   let st := lrun cfg (linit 1) [LLoad [1;2] true; LDecode 0 [1;2]; LDecode 0 [3;4]; LShift 0 1; LDecode 0 [5]] in
   map (fun s => (s_inputs s, s_inuse s)) (l_slots st) = [([1;3;4;5], true)] /\ view (l_kv st) 0 = [(0,1);(1,3);(2,4);(3,5)].
 Proof. vm_compute. split; reflexivity. Qed.
